@@ -60,10 +60,25 @@ def main():
             entry["output_tail"] = r.stdout[-600:]
         res.append(entry)
         print(json.dumps(entry), flush=True)
-    # leave the replays of mutated trees out of the way
-    sh("rm -f %s/replays/*.json" % VERIF)
+    # leave the replays of mutated trees out of the way (a tagged run keeps them under build/ anyway)
+    if not os.environ.get("VERIF_BIN_TAG"):
+        sh("rm -f %s/replays/*.json" % VERIF)
     os.makedirs(os.path.join(VERIF, "build"), exist_ok=True)
-    json.dump(res, open(os.path.join(VERIF, "build", "sensitivity.json"), "w"), indent=1)
+    # results accumulate by id over partial runs (the latest verdict of an id wins); guarded against parallel lanes
+    import fcntl
+    outp = os.path.join(VERIF, "build", "sensitivity.json")
+    with open(outp + ".lock", "w") as lk:
+        fcntl.flock(lk, fcntl.LOCK_EX)
+        old = []
+        try:
+            old = json.load(open(outp))
+        except Exception:
+            pass
+        merged = {e["id"]: e for e in old if isinstance(e, dict) and "id" in e}
+        for e in res:
+            e["checked_at"] = time.strftime("%Y-%m-%dT%H:%M:%SZ", time.gmtime())
+            merged[e["id"]] = e
+        json.dump([merged[k] for k in sorted(merged)], open(outp, "w"), indent=1)
     missed = [e["id"] for e in res if not e.get("caught")]
     print("caught %d of %d; missed: %s" % (len(res) - len(missed), len(res), missed))
     return 0
